@@ -18,6 +18,11 @@ func Replay(res *HistResult, work string, w io.Writer) []Violation {
 	}
 	defer func() { inst.Close() }()
 	r := NewRunner(inst, NewModel(Machine().TotalMemBytes()), res.Hist)
+	for _, s := range res.Steps {
+		if s.Op == "hostile" {
+			r.Hostile = true
+		}
+	}
 	for i, s := range res.Steps {
 		nv := len(r.Viol)
 		rep := r.Do(s)
@@ -52,4 +57,3 @@ func Replay(res *HistResult, work string, w io.Writer) []Violation {
 	return r.Viol
 }
 
-func RunHostileHistory(o HistOpts) *HistResult { return RunHistory(o) }
